@@ -19,4 +19,11 @@ def queries(tier):
                     unwind={"memcpy": 14, "memset": 14, "memmove": 14, "strlen": 4, "shape": 6, "names": 6},
                     bounds="%d nodes in every well-formed forest shape (links symbolic), names from {a,b,''}; one %s with position -3..3" % (nn, op),
                     outside="more than %d nodes; histories" % nn))
+    qs.append(Q("node_release", "C14/release.c",
+                units=["mptcore/node/%s.c" % f for f in "node_new node_destroy node_clear node_unlink gnode_after gnode_before gnode_pos node_locate".split()] + ["mptcore/misc/identifier.c"],
+                unwind_default=6, flags=["--memory-leak-check", "--max-field-sensitivity-array-size", "200"],
+                fp=[(r"getnode", ["verif_gnode_pos_u", "node_locate"]), (r"_vptr\)\.unref", ["h_none"])], stubs=["libc.c", "libc_loops.c"],
+                unwind={"memcpy": 20, "memset": 60, "memmove": 20},
+                bounds="parent with two children (heap nodes); destroy of a symbolic target, linked or unlinked first, or clear + destroy of the parent",
+                outside="deeper trees; nodes with metatypes; clone"))
     return qs
